@@ -2,7 +2,7 @@
 from world import amounts, specials
 
 ID = "C13"
-LEAN_MODULES = ["QtyModel.Props.C13", "QtyModel.Props.Backends", "QtyModel.Props.TieDiv", "QtyModel.Props.TieNoRefDiv", "QtyModel.Props.TieKinds", "QtyModel.Props.TieRate", "QtyModel.Props.OracleSoundC13"]
+LEAN_MODULES = ["QtyModel.Props.C13", "QtyModel.Props.Backends", "QtyModel.Props.TieDiv", "QtyModel.Props.TieNoRefDiv", "QtyModel.Props.TieKinds", "QtyModel.Props.TieRate", "QtyModel.Props.OracleSoundC13", "QtyModel.Props.C13Generated"]
 HARNESS_GROUPS = ('g_rate',)
 RATE_TYPES = ["Length", "Duration", "Mass", "DataVolume", "Temperature", "AmountT", "S:Su", "S:Sn", "S:Sa", "S:Se"]
 RULE = ("ordered pairs of quantity types from a representative set (with reference unit, dimensionless, single-unit, "
